@@ -16,6 +16,13 @@
 (*           "override" (flags on the session, the request sets both back   *)
 (*           to false; an added root stays)                                 *)
 (***************************************************************************)
+(*   host    "domain" | "ipv6": how the URL names the host; for an address  *)
+(*           literal nameOK means the certificate carries that address      *)
+(*           (iPAddress subjectAltName), not some DNS name                  *)
+(*   pop     proof of possession: the peer holds the private key of the     *)
+(*           certificate it presents (FALSE: a genuine certificate replayed *)
+(*           by somebody else, the handshake signed with another key)       *)
+(***************************************************************************)
 EXTENDS Naturals
 
 Effective(set, scope) ==
@@ -31,6 +38,10 @@ Accept(chain, expired, nameOK, set, scope) ==
   IN /\ (chainOK \/ e.certs)
      /\ (~expired \/ e.certs)
      /\ (nameOK \/ e.hosts \/ e.certs)
+
+\* a peer that cannot prove possession of the certificate's key is nobody: only waiving certificate checks
+\* altogether may let it through (what happens then is not stated)
+PopOK(pop, set, scope, res) == (~pop /\ res = "ok") => Effective(set, scope).certs
 
 \* meta-properties of the table (checked by TLC over all rows)
 DefaultsAuthenticate == \A c \in {"ca", "self", "unknown"}, x \in BOOLEAN, n \in BOOLEAN :
